@@ -131,6 +131,8 @@ func buildSchema() {
 	T.add("s_enum", tenum, ".c20.E", false)
 	T.add("r_enum", tenum, ".c20.E", true)
 	T.addMap("mv_enum", tstr, tenum, ".c20.E")
+	T.add("r_enumf", tenum, ".c20.F", true)
+	T.addMap("mv_enumf", tstr, tenum, ".c20.F")
 	T.add("s_msg", tmsg, ".c20.T", false)
 	T.add("r_msg", tmsg, ".c20.T", true)
 	T.addMap("mv_msg", tstr, tmsg, ".c20.T")
@@ -495,6 +497,86 @@ func modeScalar(small bool) {
 	}
 }
 
+// modeViews: m.r_K = o.r_K2 and m.mv_K = o.mv_K2 for every pair of kinds, the value being a
+// proto.repeated / proto.map VIEW of another message's field (not a list / dict): the
+// elements must go through the same per-kind validation as any other value.
+func modeViews() {
+	env := baseEnv()
+	srcs := []string{}
+	for _, k := range kinds {
+		srcs = append(srcs, k.name)
+	}
+	srcs = append(srcs, "enum", "enumf")
+	dsts := append([]string{}, srcs[:len(srcs)-1]...)
+	// values valid for the SOURCE kind (boundaries of its own range)
+	srcVals := func(k string) [][]starlark.Value {
+		b := func(s string) starlark.Value { return bigi(s) }
+		switch k {
+		case "int32", "sint32", "sfixed32":
+			return [][]starlark.Value{{b("-2147483648"), b("2147483647")}, {b("7"), b("0")}}
+		case "int64", "sint64", "sfixed64":
+			return [][]starlark.Value{{b("-9223372036854775808"), b("9223372036854775807")}, {b("7"), b("-1")}, {b("4294967295"), b("5")}}
+		case "uint32", "fixed32":
+			return [][]starlark.Value{{b("0"), b("4294967295")}, {b("1"), b("5")}}
+		case "uint64", "fixed64":
+			return [][]starlark.Value{{b("0"), b("18446744073709551615")}, {b("1"), b("5")}}
+		case "bool":
+			return [][]starlark.Value{{starlark.True, starlark.False}}
+		case "string":
+			return [][]starlark.Value{{starlark.String("A"), starlark.String("xyz")}, {starlark.String("C")}}
+		case "bytes":
+			return [][]starlark.Value{{starlark.Bytes("B"), starlark.Bytes("\x00\xff")}}
+		case "float", "double":
+			return [][]starlark.Value{{starlark.Float(1.5), starlark.Float(5)}, {starlark.Float(1)}}
+		case "enum":
+			return [][]starlark.Value{{enumVal(eDesc, 5), enumVal(eDesc, 1)}, {enumVal(eDesc, 0)}}
+		case "enumf":
+			return [][]starlark.Value{{enumVal(fDesc, 1), enumVal(fDesc, 0)}, {enumVal(fDesc, 1)}}
+		}
+		return nil
+	}
+	for _, dk := range dsts {
+		v0, _ := valid(dk)
+		for _, sk := range srcs {
+			for _, vals := range srcVals(sk) {
+				for _, pos := range []string{"rep_assign_view", "map_assign_view"} {
+					m, _, _ := eval("T()", env)
+					o, _, _ := eval("T()", env)
+					e := with(env, "m", m, "o", o, "v0", v0, "vals", starlark.NewList(vals), "val", vals[len(vals)-1])
+					var field, pre, src string
+					var aux []V
+					if pos == "rep_assign_view" {
+						field, pre, src = "r_"+dk, "m.r_"+dk+" = [v0]\no.r_"+sk+" = vals", "m.r_"+dk+" = o.r_"+sk
+						for _, x := range vals[:len(vals)-1] {
+							aux = append(aux, describe(x))
+						}
+					} else {
+						field, pre, src = "mv_"+dk, "m.mv_"+dk+" = {'k': v0}\no.mv_"+sk+" = {'a': val}", "m.mv_"+dk+" = o.mv_"+sk
+						aux = []V{describe(starlark.String("a"))}
+					}
+					if out, msg := exec(pre, e); out != "ok" {
+						panic("prefill failed: " + pre + ": " + msg)
+					}
+					before := fieldContent(m, field)
+					out, msg := exec(src, e)
+					rec := map[string]any{"kind": "scalar", "fk": dk, "pos": pos, "src": sk, "val": describe(vals[len(vals)-1]), "aux": aux,
+						"out": out, "before": before, "msg": msg}
+					if out == "panic" {
+						rec["after"] = nil
+					} else {
+						rec["after"] = fieldContent(m, field)
+						rb, eb := roundTrip(m, field, false)
+						rt, et := roundTrip(m, field, true)
+						rec["rt_bin"], rec["rt_text"] = rb, rt
+						rec["rt_err"] = strings.TrimSpace(eb + " " + et)
+					}
+					hx.Emit(rec)
+				}
+			}
+		}
+	}
+}
+
 // ---------------------------------------------------------------- histories over Node
 
 type Op struct {
@@ -506,6 +588,7 @@ type Op struct {
 	Key string  `json:"key,omitempty"`
 	S   string  `json:"s,omitempty"`
 	L   []int64 `json:"l,omitempty"`
+	Via int     `json:"via,omitempty"` // access path of GetSub / GetRM / GetMM (0: x.f, x.f[k], x.f[key])
 }
 
 const nvars = 4
@@ -729,10 +812,25 @@ func (st *state) apply(op Op) (out string, msg string) {
 	case "Copy":
 		return bind("Node("+xj+")", op.J)
 	case "GetSub":
+		if op.Via == 1 {
+			return bind("proto.get_field("+xj+", Node.sub)", op.J)
+		}
 		return bind(xj+".sub", op.J)
 	case "GetRM":
+		switch op.Via {
+		case 1:
+			return bind(fmt.Sprintf("list(%s.rm)[%d]", xj, op.K), op.J)
+		case 2:
+			return bind(fmt.Sprintf("[e for e in proto.get_field(%s, Node.rm)][%d]", xj, op.K), op.J)
+		}
 		return bind(fmt.Sprintf("%s.rm[%d]", xj, op.K), op.J)
 	case "GetMM":
+		switch op.Via {
+		case 1:
+			return bind(fmt.Sprintf("dict(%s.mm)[%q]", xj, op.Key), op.J)
+		case 2:
+			return bind(fmt.Sprintf("[%s.mm[k] for k in %s.mm if k == %q][0]", xj, xj, op.Key), op.J)
+		}
 		return bind(fmt.Sprintf("%s.mm[%q]", xj, op.Key), op.J)
 	case "SetV":
 		return stmt(fmt.Sprintf("%s.v = %d", xi, op.N), nil, op.I)
@@ -897,19 +995,19 @@ func genHistory(r *hx.Rand, ln int) []Op {
 			if !hasField(st.x[j], "sub") {
 				continue
 			}
-			op = Op{Op: "GetSub", I: any, J: j}
+			op = Op{Op: "GetSub", I: any, J: j, Via: r.Intn(2)}
 		case 6, 7:
 			l := attr(st.x[j], "rm").(*sproto.RepeatedField).Len()
 			if l == 0 {
 				continue
 			}
-			op = Op{Op: "GetRM", I: any, J: j, K: r.Intn(l)}
+			op = Op{Op: "GetRM", I: any, J: j, K: r.Intn(l), Via: r.Intn(3)}
 		case 8, 9:
 			k := hx.Pick(r, keys)
 			if _, found, _ := attr(st.x[j], "mm").(*sproto.MapField).Get(starlark.String(k)); !found {
 				continue
 			}
-			op = Op{Op: "GetMM", I: any, J: j, Key: k}
+			op = Op{Op: "GetMM", I: any, J: j, Key: k, Via: r.Intn(3)}
 		case 10, 11, 12:
 			op = Op{Op: "SetV", I: i, N: n}
 		case 13:
@@ -1067,6 +1165,135 @@ func modeProbe() {
 	selfAssign("self-assign-msgmap", "Node(mm={'a': Node(v=1)})", "m.mm = m.mm")
 	selfAssign("failed-list-assign-keeps-old", "Node(ri=[1,2,3])", "m.ri = [7, 'x']")
 	selfAssign("failed-map-assign-keeps-old", "Node(mi={'a': 1})", "m.mi = {'b': 'x'}")
+	// a message of another type offered to a message-typed position: an error, never accepted, never a panic
+	for _, tm := range []struct{ name, src string }{
+		{"type-mismatch:r_msg=view", "t.r_msg = n.rm"},
+		{"type-mismatch:mv_msg=view", "t.mv_msg = n.mm"},
+		{"type-mismatch:s_msg=msg", "t.s_msg = n"},
+		{"type-mismatch:r_msg=list", "t.r_msg = [n]"},
+		{"type-mismatch:r_msg.append", "t.r_msg.append(n)"},
+		{"type-mismatch:r_msg[0]=", "t.r_msg[0] = n"},
+		{"type-mismatch:mv_msg[k]=", "t.mv_msg['a'] = n"},
+		{"type-mismatch:ctor-view", "T(r_msg = n.rm)"},
+		{"type-mismatch:ctor-msg", "T(s_msg = n)"},
+		{"type-mismatch:ctor-copy", "T(n)"},
+		{"type-mismatch:reverse-view", "n.rm = t.r_msg"},
+		{"type-mismatch:r_enum=F-view", "t.r_enum = t2.r_enumf"},
+		{"type-mismatch:mv_enum=F-view", "t.mv_enum = t2.mv_enumf"},
+		{"type-mismatch:s_enum=F", "t.s_enum = F.Y"},
+	} {
+		tm := tm
+		probe(tm.name, func() (string, string, bool) {
+			t := mk("T(r_msg=[T()], mv_msg={'a': T()})")
+			t2 := mk("T(r_enumf=[F.Y], mv_enumf={'a': F.Y})")
+			n := mk("Node(rm=[Node(v=1)], mm={'a': Node(v=1)})")
+			out, msg := exec(tm.src, with(env, "t", t, "t2", t2, "n", n))
+			return out, msg, false
+		})
+	}
+	// every way of obtaining a wrapper / view BEFORE the freeze x every mutation through it AFTER the freeze
+	const setup = "Node(v=1, sub=Node(v=1, sub=Node(v=3), ri=[1], mi={'a': 1}), ri=[1, 2], rm=[Node(v=1, ri=[1], mi={'a': 1})], mi={'a': 1}, mm={'a': Node(v=1, ri=[1], mi={'a': 1})})"
+	prelude := "def upd(x):\n  d = {}\n  d.update(x)\n  return d\n"
+	pg, perr := starlark.ExecFileOptions(&syntax.FileOptions{}, thread, "prelude.star", prelude, nil)
+	if perr != nil {
+		panic(perr)
+	}
+	type access struct {
+		name, kind, expr string
+		goFn             func(m starlark.Value) starlark.Value
+	}
+	mm := func(m starlark.Value) *sproto.MapField { return attr(m, "mm").(*sproto.MapField) }
+	rm := func(m starlark.Value) *sproto.RepeatedField { return attr(m, "rm").(*sproto.RepeatedField) }
+	accesses := []access{
+		{"attr", "msg", "m.sub", nil},
+		{"get_field", "msg", "proto.get_field(m, Node.sub)", nil},
+		{"attr.attr", "msg", "m.sub.sub", nil},
+		{"index", "msg", "m.rm[0]", nil},
+		{"neg-index", "msg", "m.rm[-1]", nil},
+		{"list()", "msg", "list(m.rm)[0]", nil},
+		{"tuple()", "msg", "tuple(m.rm)[0]", nil},
+		{"comprehension", "msg", "[e for e in m.rm][0]", nil},
+		{"get_field-index", "msg", "proto.get_field(m, Node.rm)[0]", nil},
+		{"mapget", "msg", "m.mm['a']", nil},
+		{"dict()", "msg", "dict(m.mm)['a']", nil},
+		{"dict.update", "msg", "upd(m.mm)['a']", nil},
+		{"keys+get", "msg", "[m.mm[k] for k in m.mm][0]", nil},
+		{"get_field-mapget", "msg", "proto.get_field(m, Node.mm)['a']", nil},
+		{"go:Items", "msg", "", func(m starlark.Value) starlark.Value { return mm(m).Items()[0][1] }},
+		{"go:Entries", "msg", "", func(m starlark.Value) starlark.Value {
+			var r starlark.Value
+			for _, v := range mm(m).Entries() {
+				r = v
+			}
+			return r
+		}},
+		{"go:MapGet", "msg", "", func(m starlark.Value) starlark.Value { v, _, _ := mm(m).Get(starlark.String("a")); return v }},
+		{"go:Elements", "msg", "", func(m starlark.Value) starlark.Value {
+			var r starlark.Value
+			for v := range rm(m).Elements() {
+				r = v
+			}
+			return r
+		}},
+		{"go:Index", "msg", "", func(m starlark.Value) starlark.Value { return rm(m).Index(0) }},
+		{"go:Iterate", "msg", "", func(m starlark.Value) starlark.Value {
+			it := rm(m).Iterate()
+			defer it.Done()
+			var r starlark.Value
+			it.Next(&r)
+			return r
+		}},
+		{"ri-view", "ilist", "m.ri", nil},
+		{"ri-view-get_field", "ilist", "proto.get_field(m, Node.ri)", nil},
+		{"sub.ri-view", "ilist", "m.sub.ri", nil},
+		{"rm[0].ri-view", "ilist", "m.rm[0].ri", nil},
+		{"rm-view", "mlist", "m.rm", nil},
+		{"mi-view", "imap", "m.mi", nil},
+		{"mi-view-get_field", "imap", "proto.get_field(m, Node.mi)", nil},
+		{"mm['a'].mi-view", "imap", "m.mm['a'].mi", nil},
+		{"mm-view", "mmap", "m.mm", nil},
+	}
+	mutations := map[string][]string{
+		"msg":   {"W.v = 2", "W.s = 'x'", "W.ri = [9]", "W.sub = None", "proto.set_field(W, Node.v, 2)", "W.mi = {'z': 1}"},
+		"ilist": {"W.append(3)", "W[0] = 5"},
+		"mlist": {"W.append(Node())", "W[0] = Node(v=7)"},
+		"imap":  {"W['a'] = 2", "W['b'] = 2"},
+		"mmap":  {"W['a'] = Node(v=7)", "W['b'] = Node()"},
+	}
+	for _, when := range []string{"before", "after"} {
+		for _, a := range accesses {
+			for _, mu := range mutations[a.kind] {
+				a, mu, when := a, mu, when
+				probe("view-"+when+"-freeze:"+a.name+":"+mu, func() (string, string, bool) {
+					m := mk(setup)
+					e := with(env, "m", m, "upd", pg["upd"])
+					get := func() (starlark.Value, string, string) {
+						if a.goFn != nil {
+							return a.goFn(m), "ok", ""
+						}
+						return eval(a.expr, e)
+					}
+					var w starlark.Value
+					var out, msg string
+					if when == "before" {
+						if w, out, msg = get(); out != "ok" {
+							return "setup-" + out, msg, false
+						}
+						m.Freeze()
+					} else {
+						m.Freeze()
+						if w, out, msg = get(); out != "ok" {
+							return "setup-" + out, msg, false
+						}
+					}
+					before := js(m)
+					out, msg = exec(mu, with(e, "W", w))
+					after := js(m)
+					return out, msg, before != after
+				})
+			}
+		}
+	}
 	// lossless bulk stores: every value written is read back
 	probe("lossless-map-many-keys", func() (string, string, bool) {
 		m := mk("Node(mi={'k0': 100})")
@@ -1131,6 +1358,7 @@ func main() {
 	switch *mode {
 	case "scalar":
 		modeScalar(*small)
+		modeViews()
 	case "hist":
 		modeHist(*seed, *n, *ln)
 	case "replay":
